@@ -101,16 +101,17 @@ PROPERTIES = {
              "Dest: __init__ (base case: the constructor establishes the invariant and the fresh state), _reset_internal, __idle_fsm, "
              "_handle_waiting_for_finished_ack, _handle_finished_pdu_sent, state_machine. Source: __init__, _reset_internal, "
              "_notice_of_completion, state_machine (invariant S9).", [STUBS, ENV], [STUBS]),
-    "C12": P("other",
+    "C12": P("proof",
              "cancel_request of both handlers: returns true iff busy with that transaction id; a refused request changes nothing; sender: "
              "exactly one EOF(Cancel Request Received) with size = progress and the filestore checksum of that prefix, then EOF-ACK wait "
-             "or idle; receiver: CANCELED, condition code, local entity as fault location, completion step; EOF (cancel) handling, "
-             "reported condition and disposition-on-cancellation deletion are proved per function.",
-             "Level 'other' only because of the open finding F16 (an EOF (cancel) that arrives before the Metadata PDU is handled like a "
-             "regular EOF), reported as KNOWN-FINDING; every other obligation is discharged. " + ENV,
+             "or idle; receiver: CANCELED, condition code, local entity as fault location, completion step; EOF (cancel) handling - "
+             "with or without the Metadata PDU - reported condition and disposition-on-cancellation deletion are proved per function; no "
+             "NAK procedure is started for a transaction cancelled by an EOF (cancel).",
+             "The findings F2, F8b, F12, F18, F22 and F16 that this check had reported are repaired in /repo. " + ENV,
              "Source: cancel_request, _notice_of_cancellation, _handle_positive_ack_procedures (re-sent EOF). Dest: cancel_request, "
-             "_handle_eof_pdu, _notice_of_completion, _handle_transfer_completion, _prepare_finished_pdu, "
-             "_fsm_advancement_after_packets_were_sent and _deferred_lost_segment_handling (cancel condition is never overwritten).",
+             "_handle_eof_pdu, _handle_eof_without_previous_metadata, _notice_of_completion, _handle_transfer_completion, "
+             "_prepare_finished_pdu, _fsm_advancement_after_packets_were_sent and _deferred_lost_segment_handling (cancel condition is "
+             "never overwritten).",
              [STUBS, ENV], [STUBS]),
     "C13": P("proof",
              "Receiver: an EOF whose checksum does not match yet defers completion (check-limit step, count 0, fresh timer, no finished "
